@@ -14,6 +14,23 @@ struct Case {
     spec: &'static Spec,
     h: Vec<usize>,
     color: u32,
+    /// the colour is selected *before* the history instead of right before the clear ("the colour last
+    /// set" must survive whatever the history does, sleep / wake-up included)
+    early: bool,
+}
+
+/// the operations of a case and the colour that was set last in them
+fn case_ops(syms: &[Sym], h: &[usize], color: u32, early: bool) -> (Vec<Op>, u32) {
+    let mut ops = Vec::new();
+    if early {
+        ops.push(Op::arg(K::SetBg, color));
+    }
+    ops.extend(flatten(syms, h));
+    if !early {
+        ops.push(Op::arg(K::SetBg, color));
+    }
+    let last = ops.iter().rev().find(|o| o.k == K::SetBg).map(|o| o.arg).unwrap_or(color);
+    (ops, last)
 }
 
 pub fn color_name(spec: &Spec, c: u32) -> String {
@@ -126,9 +143,8 @@ fn visible_diff(spec: &Spec, a: &Ctrl, b: &Ctrl, idx: usize) -> Option<String> {
     None
 }
 
-fn eval(spec: &'static Spec, syms: &[Sym], h: &[usize], color: u32, rep: Option<&mut Report>) -> Result<Vec<(String, Vec<String>, String)>, String> {
-    let mut ops = flatten(syms, h);
-    ops.push(Op::arg(K::SetBg, color));
+fn eval(spec: &'static Spec, syms: &[Sym], h: &[usize], color: u32, early: bool, rep: Option<&mut Report>) -> Result<Vec<(String, Vec<String>, String)>, String> {
+    let (ops, color) = case_ops(syms, h, color, early);
     let mut rig = Rig::simple(spec);
     let mut twin = Rig::simple(spec);
     for o in &ops {
@@ -221,11 +237,17 @@ pub fn run(ctx: &Ctx) -> Report {
         let bigp = spec.w * spec.h > 300 * 400;
         let smallp = spec.w * spec.h <= 200 * 200;
         let maxlen = if ctx.tier_thorough { if smallp { 3 } else { 2 } } else if bigp { 1 } else { 2 };
+        let has_setbg = |h: &[usize]| h.iter().any(|i| syms[*i].iter().any(|o| o.k == K::SetBg));
         for color in 0..spec.color.count() {
-            cases.push(Case { spec, h: vec![], color });
+            cases.push(Case { spec, h: vec![], color, early: false });
             for n in 1..=maxlen {
                 for h in histories(spec, &syms, n) {
-                    cases.push(Case { spec, h, color });
+                    cases.push(Case { spec, h: h.clone(), color, early: false });
+                    // (a history that selects a colour itself decides the colour of the clear: that is the
+                    // other ordering with that colour)
+                    if !has_setbg(&h) {
+                        cases.push(Case { spec, h, color, early: true });
+                    }
                 }
             }
             // seeded random walks over the alphabet (longer than the exhaustive part)
@@ -238,7 +260,9 @@ pub fn run(ctx: &Ctx) -> Report {
             };
             for j in 0..nwalk {
                 let n = if ctx.tier_thorough { 3 + j % 6 } else { 2 + j % 3 };
-                cases.push(Case { spec, h: random_history(spec, &syms, n, &mut rng), color });
+                let h = random_history(spec, &syms, n, &mut rng);
+                let early = j % 2 == 1 && !has_setbg(&h);
+                cases.push(Case { spec, h, color, early });
             }
         }
     }
@@ -247,22 +271,24 @@ pub fn run(ctx: &Ctx) -> Report {
         let spec = c.spec;
         let syms = syms_shapes(spec);
         rep.eval(spec.name);
-        let mut ops = flatten(&syms, &c.h);
-        ops.push(Op::arg(K::SetBg, c.color));
+        let (mut ops, _) = case_ops(&syms, &c.h, c.color, c.early);
         ops.push(Op::new(K::Clear));
-        match eval(spec, &syms, &c.h, c.color, Some(rep)) {
+        match eval(spec, &syms, &c.h, c.color, c.early, Some(rep)) {
             Err(e) => {
                 rep.count("histories_with_failing_op", 1);
                 rep.note(&format!("history op failed (not judged here): {} {}", spec.name, e));
             }
             Ok(fails) => {
-                rep.nontrivial(hash_str(&format!("{}|{}|{}", spec.name, ops_short(&ops), c.color)));
+                rep.nontrivial(hash_str(&format!("{}|{}|{}|{}", spec.name, ops_short(&ops), c.color, c.early)));
+                if c.early {
+                    rep.count("colour_selected_before_history", 1);
+                }
                 if fails.is_empty() && rep.samples.len() < 8 && c.h.len() == 1 {
                     rep.sample(case_json(spec, &variant, &ops));
                 }
                 for (class, tags, detail) in fails {
                     let sig0 = format!("{}|{}", class, tags.join(","));
-                    let min = minimize_history(&c.h, &sig0, &|t: &[usize]| match eval(spec, &syms, t, c.color, None) {
+                    let min = minimize_history(&c.h, &sig0, &|t: &[usize]| match eval(spec, &syms, t, c.color, c.early, None) {
                         Ok(v) => v.iter().map(|(cl, tg, _)| format!("{}|{}", cl, tg.join(","))).find(|s| *s == sig0),
                         _ => None,
                     });
@@ -270,8 +296,15 @@ pub fn run(ctx: &Ctx) -> Report {
                     if !min.is_empty() {
                         tags.push(format!("hist:{}", sym_kinds(&syms, &min)));
                     }
-                    let mut min_ops = flatten(&syms, &min);
-                    min_ops.push(Op::arg(K::SetBg, c.color));
+                    if c.early && !min.is_empty() {
+                        // does it need the colour to be selected before the history?
+                        let late = eval(spec, &syms, &min, c.color, false, None).map(|v| v.iter().any(|(cl, tg, _)| format!("{}|{}", cl, tg.join(",")) == sig0)).unwrap_or(false);
+                        if !late {
+                            tags.push("bg-set-first".into());
+                        }
+                    }
+                    let early_min = c.early && tags.iter().any(|t| t == "bg-set-first");
+                    let (mut min_ops, _) = case_ops(&syms, &min, c.color, early_min);
                     min_ops.push(Op::new(K::Clear));
                     rep.fail(Failure { panel: spec.name.into(), entry: "clear_frame".into(), class, tags, detail: format!("{} | minimal history: {}", detail, ops_short(&min_ops)), case: case_json(spec, &variant, &min_ops) });
                 }
